@@ -26,7 +26,7 @@ func genC16(seed uint64, tier string, idx int) *Plan {
 	if holes == 0 && g.r.chance(1) {
 		sparse = g.r.pick(65537, 70000, 131080, 300000, 0x7fffff00, 0x80000400, 0x90000100, 0xfffff000) // missing stretches longer than 64 KiB, offsets beyond 2 GiB
 	}
-	g.genUpload(ci, attOpts{maxFiles: 3, maxChunks: mc, chunkMax: cm, withhold: sparse == 0, grouped: g.r.chance(40), holes: holes, sparse: sparse, second: g.r.chance(12), again1211: true, reuse: g.r.chance(12)})
+	g.genUpload(ci, attOpts{maxFiles: 3, maxChunks: mc, chunkMax: cm, dups: g.r.chance(35), withhold: sparse == 0, grouped: g.r.chance(40), holes: holes, sparse: sparse, second: g.r.chance(12), again1211: true, reuse: g.r.chance(12)})
 	p.Sched = g.sched()
 	p.MaxStep = 300000
 	return p
